@@ -5,7 +5,7 @@
    dependency) is no longer an assumption: see deps_cover_by_construction. *)
 From V Require Import Common.Base C10.BitSet C10.Renamer C10.Split
   C10.BitSetProofs C10.RenamerProofs C10.ListLemmas C10.SplitProofs C10.OrderProofs C10.CrossProofs
-  C10.Eval C10.EvalProofs.
+  C10.Eval C10.EvalProofs C10.TotalProofs.
 From Coq Require Import Relations.
 
 (* scanImportsAndExports steps 5/6, as completed by the model (Split.part_deps, export_deps):
@@ -18,6 +18,13 @@ Theorem deps_cover_by_construction : forall g,
   (forall ents e s, In e ents -> In s (entry_exports g e) -> is_declared g s = true -> In (fst s) (export_deps g ents e)).
 Proof. exact deps_cover_holds. Qed.
 Print Assumptions deps_cover_by_construction.
+
+(* totality: on a well-formed dump (there is a runtime file; import record targets, part
+   dependencies and user entry points are file indices - checked on every linker dump by the
+   harness) the model never runs out of fuel; [split g = Some r] below excludes nothing else *)
+Theorem split_total : forall g, wf_graphb g = true -> exists r, split g = Some r.
+Proof. exact split_total_all. Qed.
+Print Assumptions split_total.
 
 (* helpers.BitSet: HasBit after SetBit, every bit set of every size *)
 Theorem bitset_set_has : forall bs i j, (i < 8 * length bs)%nat ->
